@@ -146,6 +146,14 @@ func (e *Engine) setupIntrinsics() {
 		v := e.concretize(st, t, "choice "+name)
 		return BVC(64, v)
 	}
+	n[p+"vpConcrete"] = func(e *Engine, st *State, fn *ssa.Function, a []Value) Value {
+		t := a[0].(*Term)
+		if t.IsConst() {
+			return t
+		}
+		effect(st, "vpConcrete")
+		return BVC(64, e.concretize(st, t, "vpConcrete"))
+	}
 	n[p+"vpAssume"] = func(e *Engine, st *State, fn *ssa.Function, a []Value) Value {
 		c := a[0].(*Term)
 		if c.IsTrue() {
@@ -227,6 +235,20 @@ func (e *Engine) setupIntrinsics() {
 		}
 		return concFloat(math.Float64frombits(t.U))
 	}
+	minmax := func(isMin bool) nativeImpl {
+		return func(e *Engine, st *State, fn *ssa.Function, a []Value) Value {
+			x, y := a[0].(FloatV), a[1].(FloatV)
+			if x.Sym != nil || y.Sym != nil {
+				panic(unsupported("math.Min/Max of symbolic floats"))
+			}
+			if isMin {
+				return concFloat(math.Min(x.F, y.F))
+			}
+			return concFloat(math.Max(x.F, y.F))
+		}
+	}
+	n["math.Min"] = minmax(true)
+	n["math.Max"] = minmax(false)
 	n["math.IsNaN"] = func(e *Engine, st *State, fn *ssa.Function, a []Value) Value {
 		f := a[0].(FloatV)
 		if f.Sym != nil {
@@ -468,7 +490,10 @@ func (e *Engine) snapshot(st *State, v Value) Value {
 
 func (e *Engine) ackermann(st *State, fname string, args []*Term, s Sort) *Term {
 	key := fmt.Sprintf("%s/%d", fname, len(args))
-	for _, a := range e.ackApps[key] {
+	if st.Ack == nil {
+		st.Ack = map[string][]ackApp{}
+	}
+	for _, a := range st.Ack[key] {
 		same := true
 		for i := range args {
 			if a.args[i] != args[i] {
@@ -480,20 +505,27 @@ func (e *Engine) ackermann(st *State, fname string, args []*Term, s Sort) *Term 
 			return a.res
 		}
 	}
-	name := fmt.Sprintf("%s!%d", key, len(e.ackApps[key]))
+	// the result variable is named after the argument terms, so that the same
+	// application made on different paths is the same variable
+	var sb strings.Builder
+	sb.WriteString(key)
+	for _, a := range args {
+		fmt.Fprintf(&sb, ".%d", a.ID)
+	}
+	name := sb.String()
 	res := Var(name, s)
 	e.declInput(name, res, "uf")
-	// functional consistency with every earlier application
-	for _, a := range e.ackApps[key] {
+	// functional consistency with every earlier application on this path
+	for _, a := range st.Ack[key] {
 		eqs := make([]*Term, len(args))
 		for i := range args {
 			eqs[i] = Eq(a.args[i], args[i])
 		}
 		ax := Or(Not(And(eqs...)), Eq(a.res, res))
-		e.axioms = append(e.axioms, ax)
 		st.Assume(ax)
+		st.Assumed = append(st.Assumed, ax)
 	}
-	e.ackApps[key] = append(e.ackApps[key], ackApp{args: args, res: res})
+	st.Ack[key] = append(st.Ack[key], ackApp{args: args, res: res})
 	return res
 }
 
